@@ -82,11 +82,15 @@ fn special_number() -> BoxedStrategy<Val> {
     .boxed()
 }
 
+fn string() -> BoxedStrategy<Val> {
+    one_of(&["a", "\"a\"", "'a'", "b", "\"\"", "''", "unquote(\"\")", "\"a b\"", "a\\ b", "\"A\"", "red", "\"red\"", "true", "\"true\"", "null", "\"null\"", "\"1\"", "\"é\"", "é", "\"\\e9\"", "\"\\65\"", "e", "\"#{a}\"", "a#{b}", "a-b", "\"a-b\"", "\"a\\-b\"", "'a\\-b'", "\"a\\ b\"", "unquote(\"a\\ b\")", "unquote(\"a b\")", "\"x\\a y\"", "unquote(\"x\\a y\")", "\"\\\\\"", "unquote(\"\\\\\")", "'\\\\'"]).prop_map(|t| { let k = match t.as_str() { "true" => "bool", "null" => "null", "red" => "color", _ => "string" }; v(t, k) }).boxed()
+}
+
 fn scalar() -> BoxedStrategy<Val> {
     prop_oneof![
         6 => number(),
         2 => special_number(),
-        3 => one_of(&["a", "\"a\"", "'a'", "b", "\"\"", "''", "unquote(\"\")", "\"a b\"", "a\\ b", "\"A\"", "red", "\"red\"", "true", "\"true\"", "null", "\"null\"", "\"1\"", "\"é\"", "é", "\"\\e9\"", "\"\\65\"", "e", "\"#{a}\"", "a#{b}", "a-b", "\"a-b\"", "\"a\\-b\"", "'a\\-b'", "\"a\\ b\"", "unquote(\"a\\ b\")", "unquote(\"a b\")", "\"x\\a y\"", "unquote(\"x\\a y\")", "\"\\\\\"", "unquote(\"\\\\\")", "'\\\\'"]).prop_map(|t| { let k = match t.as_str() { "true" => "bool", "null" => "null", "red" => "color", _ => "string" }; v(t, k) }),
+        3 => string(),
         3 => one_of(&["red", "#f00", "#ff0000", "#FF0000", "rgb(255, 0, 0)", "rgba(255, 0, 0, 1)", "hsl(0, 100%, 50%)", "hwb(0 0% 0%)", "rgba(255, 0, 0, 0.5)", "#ff000080", "transparent", "rgba(0,0,0,0)", "hsl(120, 50%, 50%)", "hwb(120 25% 25%)", "#40bf40", "rgb(64, 191, 64)", "hsl(357, 50%, 90%)", "hwb(357 85% 5%)", "blue", "#00f", "hsl(240, 100%, 50%)", "hsl(295, 56%, 17%)", "invert(invert(hsl(295, 56%, 17%)))", "lighten(red, 0%)", "hsl(math.div(0,0), 50%, 50%)"]).prop_map(|t| { let nan = t.contains("div(0,0)"); Val { nan, ..v(t, "color") } }),
         1 => one_of(&["true", "false", "null", "not true", "not null"]).prop_map(|t| { let k = if t == "null" { "null" } else { "bool" }; v(t, k) }),
         1 => one_of(&["get-function(\"red\")", "get-function(\"blue\")", "meta.get-function(\"red\")", "meta.get-function(\"red\", $module: \"color\")", "get-function(\"rgb\")"]).prop_map(|t| v(t, "function")),
@@ -117,6 +121,8 @@ fn pairs() -> impl Strategy<Value = Case> {
     prop_oneof![
         3 => (value(), value()).prop_map(|(a, b)| Case { a, b }),
         3 => (number(), number()).prop_map(|(a, b)| Case { a, b }),
+        // strings with each other (quoted / unquoted / escapes kept in the value)
+        2 => (string(), string()).prop_map(|(a, b)| Case { a, b }),
         // perturbation twins: same magnitude a few ulps apart, possibly in convertible units
         3 => (prop_oneof![(1u32..2000).prop_map(|n| n as f64 / 8.0), (1u32..100000).prop_map(|n| n as f64 / 1000.0), Just(1.0), Just(0.3), Just(1e-12), Just(1e12)], -4i64..=4, 0usize..6).prop_map(|(x, ulps, conv)| {
             let y = f64::from_bits((x.to_bits() as i64 + ulps) as u64);
